@@ -142,6 +142,14 @@ pub fn dispatch(st: &mut CacheState, op: &str, f: &[String]) -> Option<String> {
             version_lsp::verif::set_now_ms(Some(0));
             "ok".into()
         }
+        // c.configure <handle> <interval> <ip T|F> : VersionStorer::configure on a live handle (what a configuration answer does);
+        // a later reopen constructs with the configured values
+        "c.configure" => {
+            st.interval = f[1].parse().unwrap();
+            st.ip = f[2] == "T";
+            VersionStorer::configure(st.h(&f[0]), st.interval, st.ip);
+            "ok".into()
+        }
         "c.open" => {
             let p = st.db_path();
             match Cache::new(&p, st.interval, st.ip) {
